@@ -26,7 +26,7 @@ import tempfile
 
 import numpy as np
 
-from vp_common import LEAN_DIR, REPO, Atom, Ctx, line, run_driver
+from vp_common import InfraError, LEAN_DIR, REPO, Atom, Ctx, line, run_driver
 
 PROP = 'C12'
 GEN_DEPENDENT = True
@@ -292,8 +292,37 @@ def real_vault():
     return v._tr_global_namespace
 
 
+_PRISTINE = {}
+
+
+def pristine_vault():
+    """the registry as the SOURCE defines it: read in a fresh interpreter (the same dump the translator turns into
+    Gen/Vault.lean).  The oracle judges selections against this, not against the live module, whose dicts a constructor that
+    merges presets in place could have altered earlier in the run."""
+    if not _PRISTINE:
+        dump, err = dump_vault()
+        if dump is None:
+            raise InfraError('cannot import the transformer vault in a fresh interpreter: ' + err[-200:])
+        for preset, table in dump['registry']:
+            _PRISTINE[preset] = {k: f for k, f in dump['tables'].get(table, [])}
+    return _PRISTINE
+
+
+_SELECT_HISTORY = []
+
+
+def reset_vault():
+    """put the live registry dicts back to the contents the source defines (emulates a fresh process for replay / shrinking)"""
+    live = real_vault()
+    for preset, tbl in pristine_vault().items():
+        if preset in live and isinstance(live[preset], dict) and dict(live[preset]) != tbl:
+            live[preset].clear()
+            live[preset].update(tbl)
+
+
 def real_select(preset):
     from outrank.feature_transformations.ranking_transformers import FeatureTransformerGeneric
+    _SELECT_HISTORY.append(preset)
     try:
         tr = FeatureTransformerGeneric(set(), preset=preset)
     except NotImplementedError:
@@ -358,11 +387,15 @@ def first_diff(a, b):
 # ----- preset lists
 
 def eval_select(ctx: Ctx, cases, oracle_only=False):
-    vault = real_vault()
+    vault = pristine_vault()
     rep = [] if oracle_only else run_driver([line(Atom(PROP), Atom('select'), c['preset']) for c in cases])
     for i, c in enumerate(cases):
         preset = c['preset']
         names = preset.split(',')
+        if 'history' in c:                      # replay of a history-dependent failure: fresh registry, then the recorded calls
+            reset_vault()
+            for h in c['history']:
+                real_select(h)
         got = real_select(preset)
         ctx.evaluations += 1
         valid = all(n in vault and len(vault[n]) > 0 for n in names)
@@ -370,6 +403,10 @@ def eval_select(ctx: Ctx, cases, oracle_only=False):
         if valid and len(set(names)) > 1:
             ctx.nontrivial.add(('select', preset))
         case = {'kind': 'select', 'preset': preset}
+        if 'history' in c:
+            case['history'] = c['history']
+        elif valid and isinstance(got, list) and {k for k, _ in got} != {k for n in names for k in vault[n]}:
+            case = shrink_select_history(preset, list(_SELECT_HISTORY[:-1]), got)
         if not oracle_only:
             ctx.traces += 1
             m = rep[i]
@@ -397,6 +434,25 @@ def eval_select(ctx: Ctx, cases, oracle_only=False):
                         ctx.oracle_fail('preset-union', f'preset={preset!r}: {bad[0][0]!r} carries {bad[0][1]!r}, which none of the named presets gives it', case)
         if i % 60 == 0:
             ctx.sample({'preset': preset, 'selected': got if isinstance(got, str) else len(got)})
+
+
+def shrink_select_history(preset, history, got):
+    """a selection that is wrong only because of EARLIER constructor calls in this process: find one earlier call that suffices"""
+    reset_vault()
+    if real_select(preset) == got:
+        reset_vault()
+        return {'kind': 'select', 'preset': preset, 'history': []}
+    seen = []
+    for h in history:
+        if h in seen or ',' not in h:
+            continue
+        seen.append(h)
+        reset_vault()
+        real_select(h)
+        g2 = real_select(preset)
+        if isinstance(g2, list) and {k for k, _ in g2} == {k for k, _ in got}:
+            return {'kind': 'select', 'preset': preset, 'history': [h]}
+    return {'kind': 'select', 'preset': preset, 'history': history[-50:]}
 
 
 def summ(x):
